@@ -39,7 +39,7 @@ func c04Hooks(level int) limHooks {
 
 func runC04(c *Ctx) {
 	level := c.Pick(0, 1)
-	depth := c.Pick(5, 7)
+	depth := c.Pick(5, 6)
 	for _, cfg := range append(limGrid(level), limGridVariants()...) {
 		for _, w := range []string{"", "windowed", "traced"} {
 			cfg := cfg
